@@ -651,6 +651,34 @@ Definition get_data_location (s : interp) : option location :=
   | None => None
   end.
 
+(* populate_error_location (program.rs) *)
+Definition populate_error_location (e : ierror) (l : option location) (s : interp) : option location :=
+  match l with
+  | Some _ => l
+  | None =>
+      match e with
+      | EDataTypeMismatch => get_data_location s
+      | _ => Some (prev_location (loc s))
+      end
+  end.
+
+(* is_else_of_then_clause (program.rs): the token just consumed is an ELSE;
+   is there a THEN before it on the line with no colon in between? *)
+Fixpoint then_before (rev_prefix : list token) : bool :=
+  match rev_prefix with
+  | [] => false
+  | TThen :: _ => true
+  | TColon :: _ => false
+  | _ :: r => then_before r
+  end.
+
+Definition is_else_of_then_clause : M bool :=
+  ts <- cur_tokens ;;
+  l <- get loc ;;
+  ret (then_before (rev (firstn (Nat.pred (loc_idx l)) ts))).
+
+Definition max_nesting : nat := N.to_nat MAX_NESTING.
+
 Definition next_line : M bool :=
   l <- get loc ;;
   match loc_line l with
